@@ -193,7 +193,7 @@ Fixpoint eval (e : expr) : M Z :=
             bind (eval_kws eval kws) (fun kvs =>
             if o_callable O id
             then bind (emit (PCall id avs kvs)) (fun _ => of_opt (o_call O id avs kvs))
-            else bind (emit (PName id)) (fun _ => ret (o_name O id))))
+            else fail BadCall))          (* an allow-listed constant is not callable (since 2db6888) *)
           else fail Unsupported
       | _ => fail BadCall
       end
